@@ -102,11 +102,16 @@ func cmdPortionCheck(args []string) {
 			Lex string `json:"lex"`
 			N   int    `json:"n"`
 			D   int    `json:"d"`
+			ZK  int    `json:"zk"` // replay: the number of extra digits of the long-numeral variants (0 = by rotation)
 		}
 		if err := json.Unmarshal(b, &g); err != nil {
 			die(2, "bad line: %v", err)
 		}
-		line := J{"e": "portion", "n": n, "lex": g.Lex, "pn": g.N, "pd": g.D}
+		zk := (n/5)%40 + 1
+		if g.ZK > 0 {
+			zk = g.ZK
+		}
+		line := J{"e": "portion", "n": n, "lex": g.Lex, "pn": g.N, "pd": g.D, "zk": zk}
 		line["litmeta"] = metaChannel(fmt.Sprintf("set_tx_meta(\"p\", %s)", g.Lex), nil)
 		line["varmeta"] = metaChannel("vars { portion $p }\nset_tx_meta(\"p\", $p)", map[string]string{"p": g.Lex})
 		total := g.D
@@ -119,10 +124,10 @@ func cmdPortionCheck(args []string) {
 		line["varsplit"] = splitChannel(fmt.Sprintf("vars { portion $p }\nsend [COIN %d] (\n source = @world\n destination = { $p to @a\n remaining to @b }\n)", total), map[string]string{"p": g.Lex})
 		// long numerals (beyond TLC's integers): the same value spelled with 1 to 40 more digits must render identically (scaling lift)
 		long := []any{}
-		if n%5 == 0 {
+		if n%5 == 0 || g.ZK > 0 {
 			// the number of extra digits rotates over 1..40: a table of powers of ten, a machine-word fast path or a fixed buffer
 			// is wrong for one particular count of digits only (10^19 and 10^20 do not fit 64 bits)
-			zeros := strings.Repeat("0", (n/5)%40+1)
+			zeros := strings.Repeat("0", zk)
 			var variants []string
 			if i := strings.Index(g.Lex, "/"); i >= 0 {
 				num, den := strings.TrimSpace(g.Lex[:i]), strings.TrimSpace(g.Lex[i+1:])
